@@ -16,6 +16,9 @@
 3. harness/cdrv/drv_lookup.c probes the real lookup functions (with index, with the section table
    unreachable, repository level); drv_hash.c drives the hash builder directly.
 4. tla/DirIndexTrace.tla judges every observation.  Verdicts come from TLC only.
+
+Development aid (mutation exercise): C14_DEV_FAST=1 keeps only the TLC run that exhibits the boundary
+and skips the other model-checking runs; the evidence then says exhaustive=false.
 """
 import glob, json, os, random, subprocess, time
 
@@ -194,9 +197,9 @@ class Runner(object):
         self.info = {}        # obs id -> (case id, kind, probe string)
         self.cases = {}       # case id -> replay dict
 
-    def run(self, cmd, timeout=600):
+    def run(self, cmd, timeout=600, env=None):
         try:
-            return subprocess.run(cmd, stdout=subprocess.PIPE, stderr=subprocess.PIPE, env=self.env, timeout=timeout)
+            return subprocess.run(cmd, stdout=subprocess.PIPE, stderr=subprocess.PIPE, env=env or self.env, timeout=timeout)
         except subprocess.TimeoutExpired:
             raise MachineryError('timeout: %s' % ' '.join(cmd[:3]))
 
@@ -214,7 +217,10 @@ class Runner(object):
         with open(pf, 'w', encoding='utf-8') as f:
             for j, (k, s, _, _) in enumerate(probes):
                 f.write('%s\t%d\t%s\n' % (k, j, s))
-        p = self.run([self.lookup, 'probe', typelib, pf])
+        env = None
+        if not typelib.startswith(self.ck.tmp):     # system typelib: its dependencies must be loadable
+            env = dict(self.env, GI_TYPELIB_PATH=os.path.dirname(typelib))
+        p = self.run([self.lookup, 'probe', typelib, pf], env=env)
         os.unlink(pf)
         lines = p.stdout.decode('utf-8', 'replace').split('\n')
         hdr = None
@@ -389,37 +395,54 @@ def run():
 
     replay = json.load(open(a.replay))['replay'] if a.replay else None
     R = Runner(ck)
+    tphase = time.time()
     R.hash_sizes = {}
 
     boundary = None
     if not replay:
         # ---------------------------------------------------------------- 1. model checking
+        fast = bool(os.environ.get('C14_DEV_FAST'))
         lk = 'DirIndex_lookup.cfg' if ck.quick else 'DirIndex_lookup_t.cfg'
-        ck.tlc_mc('DirIndexMC', lk, workers=8, timeout=170, coverage=False,
+        if not fast:
+          ck.tlc_mc('DirIndexMC', lk, workers=8, timeout=170, coverage=False,
                   label='for all perfect hashes h, pack orders, probes: indexed = linear = truth; key scans; repository passes')
         for cfg, what in (('DirIndex_w_nocmp.cfg', 'no final strcmp'), ('DirIndex_w_noclamp.cfg', 'no clamp of out-of-range hash values')):
+            if fast:
+                break
             r = ck.tlc_mc('DirIndexMC', cfg, workers=1, timeout=170, coverage=False, expect_ok=False, label='what-if: ' + what)
             if r.get('violated') != 'Inv_AbsentIsAbsent':
                 raise MachineryError('what-if %s did not violate AbsentIsAbsent (model vacuous?): %s' % (cfg, r.get('error')))
-        # as-is arithmetic: TLC exhibits the smallest n whose index cannot be built (initial states are explored in order)
-        r = ck.tlc_mc('DirIndexMC', 'DirIndex_size16.cfg', workers=1, timeout=170, coverage=False, expect_ok=False,
-                      label='as-is size arithmetic (guint16 required_size): search for an n in 1..65535 that breaks IndexBuilt')
-        if r.get('violated') == 'Inv_IndexBuilt':
+        # as-is arithmetic (guint16 required_size): TLC exhibits the smallest n whose index cannot be built
+        r = ck.tlc_mc('DirIndexMC', 'DirIndex_bisect16.cfg', workers=1, timeout=170, coverage=False, expect_ok=False,
+                      label='as-is size arithmetic (guint16 required_size): bisection for the smallest n in 1..65535 that breaks IndexBuilt')
+        if r.get('violated') == 'Inv_NoBoundary':
             st = parse_error_trace(r['out'])
-            boundary = int(st[-1][1]['n'])
-            ck.notes.append('TLC counterexample of DirIndex_size16.cfg: n=%d, %s' % (boundary, st[-1][1].get('sz')))
-            r2 = ck.tlc_mc('DirIndexMC', 'DirIndex_bound16.cfg', workers=8, timeout=170, coverage=False, env={'C14_BOUNDARY': str(boundary)},
-                           label='as-is arithmetic: IndexBuilt fails exactly for n >= %d (all n in 1..65535); section layout where it is built' % boundary)
+            boundary = int(st[-1][1]['hi'])
+            ck.notes.append('TLC counterexample of DirIndex_bisect16.cfg: smallest n = %d, %s' % (boundary, st[-1][1].get('sz')))
+            if not ck.quick:
+                r1 = ck.tlc_mc('DirIndexMC', 'DirIndex_size16_t.cfg', workers=1, timeout=170, coverage=False, expect_ok=False,
+                               label='as-is size arithmetic: enumeration of n = 1, 2, ... until IndexBuilt breaks')
+                st1 = parse_error_trace(r1['out'])
+                if r1.get('violated') != 'Inv_IndexBuilt' or int(st1[-1][1]['n']) != boundary:
+                    raise MachineryError('enumeration and bisection disagree on the smallest failing n: %s vs %d' % (st1[-1][1].get('n') if st1 else None, boundary))
+            if not fast:
+              ck.tlc_mc('DirIndexMC', 'DirIndex_bound16.cfg' if ck.quick else 'DirIndex_bound16_t.cfg', workers=8, timeout=170, coverage=False,
+                      env={'C14_BOUNDARY': str(boundary)},
+                      label='as-is arithmetic: IndexBuilt fails exactly for n >= %d (%s); monotone; section layout where it is built'
+                            % (boundary, 'chosen n and boundary +-300' if ck.quick else 'all n in 1..65535'))
         elif r['ok']:
-            ck.notes.append('DRIFT-free: as-is arithmetic model builds the index for every n in 1..65535')
+            ck.notes.append('the size arithmetic model (SizeBits=16 configuration) builds the index for every n: no boundary')
         else:
-            raise MachineryError('DirIndex_size16: %s' % r.get('error'))
-        ck.tlc_mc('DirIndexMC', 'DirIndex_size32.cfg' if ck.quick else 'DirIndex_size32_t.cfg', workers=8, timeout=170, coverage=False,
+            raise MachineryError('DirIndex_bisect16: %s' % r.get('error'))
+        if not fast:
+          ck.tlc_mc('DirIndexMC', 'DirIndex_size32.cfg' if ck.quick else 'DirIndex_size32_t.cfg', workers=8, timeout=170, coverage=False,
                   label='32-bit required_size: IndexBuilt and section layout for %s' % ('chosen n' if ck.quick else 'all n in 1..65535'))
-        ck.cov['exhaustive'] = True
+        ck.cov['exhaustive'] = not fast
 
+        ck.notes.append('model checking %.1fs' % (time.time() - tphase))
+        tphase = time.time()
         # ---------------------------------------------------------------- 2./3. cases on the real code
-        cm, ca = (1500, 3000) if ck.quick else (70000, 30000)
+        cm, ca = (600, 1200) if ck.quick else (70000, 30000)
         specs = []
         for n in SIZES_QUICK:
             styles = STYLES if n <= 9 else [STYLES[(SIZES_QUICK.index(n) + ck.seed) % len(STYLES)], 'near' if n <= 257 else 'num']
@@ -444,14 +467,17 @@ def run():
         for n in ([300] if ck.quick else [300, 3000]):
             R.hash_case(n, 'long')
         for path in sorted(glob.glob(SYS_TYPELIBS)):
-            R.system_case(path, 1200 if ck.quick else 100000)
+            R.system_case(path, 400 if ck.quick else 100000)
     else:
         if replay['kind'] == 'generated':
             R.generated_case(replay['spec'], 10 ** 6, 10 ** 6, only_probes=[tuple(x) for x in replay['probes']] if replay.get('probes') else None)
         else:
             R.system_case(replay['typelib'], 10 ** 6, only_probes=[tuple(x) for x in replay['probes']] if replay.get('probes') else None)
 
+    ck.notes.append('real-code runs %.1fs (%d observations)' % (time.time() - tphase, len(R.obs)))
+    tphase = time.time()
     # -------------------------------------------------------------------- 4. verdicts by TLC
+    byid = {o['id']: o for o in R.obs}
     rejected, exercised = ck.tlc_verdict('DirIndexTrace', R.obs, chunk=40000, timeout=170)
     drift = {}
     for oid, clause, detail in rejected:
@@ -465,13 +491,14 @@ def run():
             sig = dict(clause=clause, n_class=detail)
             text = 'IndexBuilt: %s: no typelib for a namespace of %s entries: %s' % (cid, case.get('spec', {}).get('n'), s)
         else:
-            o = next(x for x in R.obs if x['id'] == oid)
+            o = byid[oid]
             sig = dict(clause=clause, kind=o['kind'], probe_class=detail, corpus=case.get('kind'),
                        style=case.get('spec', {}).get('style', '-'))
             rp['probes'] = [[k, s]]
             text = ('%s: %s probe %r of %s (n=%d, %s, expected %s): with index -> %d, linear -> %d, repository -> %d'
                     % (clause, o['kind'], s[:80], cid, o['n'], detail, o['expected'], o['fIdx'], o['fLin'], o['fRepo']))
         ck.violation(sig, text, rp)
+    ck.notes.append('TLC verdict %.1fs' % (time.time() - tphase))
     for c, ids in drift.items():
         ck.notes.append('%s on %d records, e.g. %s: %s' % (c, len(ids), ids[0], R.info.get(ids[0], ('', '', ''))[2]))
     ck.cov['drift'] = {c: len(v) for c, v in drift.items()}
